@@ -251,6 +251,16 @@ def settings_grid(name, quick=True, seed=0):
     # plus one "all defaults but cheap" entry with a generated salt
     if has_salt:
         out.append(dict(base, **extras[0]))
+        # ... and the two ends of the salt space: the last / the first symbol of the alphabet in EVERY position (the
+        # all-ones and the all-zero salt value: 'zzzz' is bsdi_crypt's 0xFFFFFF)
+        sc = salt_alphabet(name)
+        size = g(name, "default_salt_size") or g(name, "max_salt_size") or g(name, "min_salt_size")
+        if size and not (name == "scrypt"):
+            for sym in (sc[-1:], sc[:1]):
+                salt = sym * size
+                if base_name(name) in ("bcrypt", "bcrypt_sha256") and size == 22:
+                    salt = salt[:-1] + ("u" if sym == sc[-1:] else ".")
+                out.append(dict(base, salt=salt, **extras[0]))
     return out
 
 
